@@ -10,6 +10,7 @@
 (* Alphabet (one trace = one behaviour on the real code):                                      *)
 (*  Cfg  {kind: stream|dec|rt|fwd, ...}     first event, names the input class                *)
 (*  W    {op: write|eof|close, c, n, ret, err}   a call on the writing FrameStream and result *)
+(*        (a refused or short Write of any size class is an observation, judged under Complete)*)
 (*  Inj  {k, idrel: diff|same16, ty: data|eof|unk}   a frame another user put on the conn      *)
 (*  D    {src: own|inj|junk, k, off, len, eq}    bytes returned by FrameStream.Read on the     *)
 (*        peer, classified in Go: own = equal (eq) to our stream at offset off                 *)
@@ -55,8 +56,11 @@ TrW == /\ Is("W") /\ l' = l + 1
                THEN UNCHANGED <<viol, written, closed>>       \* after close the statement is silent
                ELSE /\ written' = written + Ev.ret
                     /\ closed' = closed
-                    /\ IF Ev.err \/ Ev.ret # Ev.n
-                       THEN Add("Complete", "write-failed:" \o Ev.c) ELSE viol' = viol
+                    \* "complete for any write sizes": a Write on an open stream must accept every byte,
+                    \* whether it leaves as one frame or is split into several
+                    /\ IF Ev.err THEN Add("Complete", "write-refused:" \o Ev.c)
+                       ELSE IF Ev.ret # Ev.n THEN Add("Complete", "short-write:" \o Ev.c)
+                       ELSE viol' = viol
           ELSE /\ written' = written
                /\ IF Ev.err THEN Add("Complete", "close-failed:" \o Ev.op) /\ closed' = closed
                   ELSE viol' = viol /\ closed' = (IF closed = "" THEN Ev.op ELSE closed)
@@ -95,8 +99,9 @@ TrREnd == /\ Is("REnd") /\ l' = l + 1 /\ ended' = TRUE
 
 \* ---- decoder -------------------------------------------------------------------------------
 Cls(c) == c.hdr \o ":" \o c.ty \o ":" \o c.decl \o ":" \o c.avail
-\* crafted bytes that are exactly a well-formed frame within the limit must decode to that frame
-WellFormed(c) == c.hdr = "full" /\ c.decl \in {"0", "MAX"} /\ c.avail \in {"all", "extra"}
+\* crafted bytes that are exactly a well-formed empty frame must decode to that frame (where the
+\* payload limit lies is the implementation's business: the statement only bounds it from above)
+WellFormed(c) == c.hdr = "full" /\ c.decl = "0"
 TrDec == /\ Is("Dec") /\ l' = l + 1
          /\ LET d == Cls(Ev.c) \o ":" \o Ev.chunk
                 vs == (IF Ev.res = "panic" THEN {V("DecoderSafe", "panic:" \o d)} ELSE {})
@@ -109,8 +114,8 @@ TrDec == /\ Is("Dec") /\ l' = l + 1
 
 TrRt == /\ Is("Rt") /\ l' = l + 1
         /\ LET d == Ev.len \o ":" \o Ev.ty \o ":" \o Ev.chunk
-               vs == (IF Ev.enc = "refused" /\ Ev.len # "Mp1" THEN {V("RoundTrip", "encode-refused:" \o d)} ELSE {})
-                \cup (IF Ev.enc = "ok" /\ (Ev.res # "frame" \/ ~Ev.eq) THEN {V("RoundTrip", d)} ELSE {})
+               \* an encoder that refuses a payload has not encoded a frame: the statement is silent
+               vs == (IF Ev.enc = "ok" /\ (Ev.res # "frame" \/ ~Ev.eq) THEN {V("RoundTrip", d)} ELSE {})
                 \cup (IF Ev.res = "panic" THEN {V("DecoderSafe", "panic:rt:" \o d)} ELSE {})
                 \cup (IF Ev.alloc > MaxFrame + Slack THEN {V("DecoderAlloc", "rt:" \o d)} ELSE {})
            IN viol' = viol \cup vs
